@@ -13,6 +13,8 @@ CLAIMED = {
  "C11": ("exploration", "drop ledger on the error value, closure-call counter, same-layout-again probe watched by the allocator ledger, shadow of blocks kept by the initialiser; systematic steering of the space left in the chunk", "3/C11"),
  "C12": ("exploration", "Allocator-contract shadow model (fit, alignment, prefix preserved, zeroed tail, no overlap, error leaves block intact) + differential allocator_api2 Vec/Box vs std on the global allocator; Miri + ASan", "3/C12"),
  "C18": ("exploration", "counting monitors over the allocator event ledger and as_ptr(): capacity served without new chunk, chunk_capacity probes, reserved Vec/String capacity without move, explicit geometric-growth bounds at volumes 1e3..1e7", "3/C18"),
+ "C19": ("exploration", "boundary-grid enumeration per size-taking entry point (Bump, Vec, String) under a capped allocator; oracle: Err/panic required, Ok only if the claimed extent is really held", "3/C19"),
+ "C20": ("exploration", "solo-vs-interleaved per-call trace equality (single thread, one arena per thread, hand-over between threads); ThreadSanitizer and Miri data-race detection on multi-arena schedules", "3/C20"),
  "C10": ("exploration", "chunk iterators compared with ledger order/extents and with the shadow of live blocks; exact tiling oracle on uniform histories", "3/C10"),
 }
 NOT_YET = {}
